@@ -268,6 +268,28 @@ func init() {
 			do(dw, nw, false)
 			do(dr, nr, false)
 		}
+		// wide parents with a repeated sibling: k distinct children, then child i written again with a child of its own
+		// (it must merge into the i-th), for every k around the small thresholds and every i
+		for _, k := range []int{7, 8, 9, 10, 11, 16, 17, 32, 33} {
+			for i := 0; i < k; i++ {
+				if !c.Take() || c.Expired() {
+					continue
+				}
+				d, nm := []int{1}, []string{"r"}
+				for j := 0; j < k; j++ {
+					d = append(d, 2)
+					nm = append(nm, fmt.Sprintf("c%02d", j))
+				}
+				d = append(d, 2, 3, 2)
+				nm = append(nm, fmt.Sprintf("c%02d", i), "g", "tail")
+				c.StateN(1)
+				c.Nontrivial()
+				c.Inc("size_family_cases")
+				c04Judge(c, d, nm, "json", "md")
+				c04Judge(c, d, nm, "yaml", "root")
+				c04Judge(c, d, nm, "toml", "md+massive")
+			}
+		}
 		// documents larger than the usual I/O buffers (2, 4, 12 and 64 KiB), From-Markdown: names must come out as written
 		for _, total := range []int{150, 300, 900, 4500} {
 			if !c.Take() || c.Expired() {
